@@ -226,4 +226,20 @@ theorem c_group_decode_bounded (bs : List Nat) (hb : ∀ b ∈ bs, b < 256) (h64
   have := List.mem_range'_1.mp hfst
   omega
 
+
+/-- **`varintFORDecodeBlock` on the translated C never writes beyond `blockSize` elements**: for ANY byte buffer whose
+    header and requested slice the model can read, the stores are exactly values[0 … n-1] with n ≤ blockSize -/
+theorem c_for_block_bounded (bs : List Nat) (hb : ∀ b ∈ bs, b < 256) (start bsz fuel : Nat) (h : FOR.Hdr)
+    (hh : FOR.readHdr bs = some h) (hsum : start + bsz < 2 ^ 64) (hsw : start * h.width < 2 ^ 64) (hf : bsz < fuel)
+    (vs : List Nat) (hd : FOR.decBlock bs start bsz = some vs) :
+    ∃ st, Varint.Gen.C.forDecodeBlock fuel (Varint.Bridge.Tagged.bufOf bs) start bsz = some (vs.length, st) ∧
+      st = Varint.Bridge.storesFrom 0 vs ∧ ∀ p ∈ st, p.1 < bsz := by
+  obtain ⟨e, hle⟩ := Varint.Bridge.FORDec.forDecodeBlock_eq bs hb start bsz fuel h hh hsum hsw hf vs hd
+  refine ⟨_, e, rfl, ?_⟩
+  intro p hp
+  have hfst : p.1 ∈ (Varint.Bridge.storesFrom 0 vs).map Prod.fst := List.mem_map_of_mem hp
+  rw [Varint.Bridge.storesFrom_fst] at hfst
+  have := List.mem_range'_1.mp hfst
+  omega
+
 end Varint.Props.C13
